@@ -1233,14 +1233,82 @@ def _param_seq(e: ast.AST, params: list[str], single: dict[str, ast.expr]) -> li
     return None
 
 
+@dataclass
+class Finding:
+    """A search whose source of truth is positively not the graph's edges (reported by run_search as a C01.S violation)."""
+
+    fi: FuncInfo  # view
+    node: ast.AST  # the offending test
+    detail: str
+
+
+_NAME_METHODS = {"startswith", "endswith", "find", "rfind", "index", "rindex", "removeprefix", "removesuffix", "split", "rsplit", "partition", "rpartition", "count"}
+
+
+def _name_tests(fn: ast.AST) -> list[ast.AST]:
+    """String relations on node names: prefix / suffix / substring tests, splitting, counting of separators, slicing by a
+    length, regular expressions."""
+    out: list[ast.AST] = []
+    for n in ast.walk(fn):
+        if isinstance(n, ast.Call) and isinstance(n.func, ast.Attribute) and n.func.attr in _NAME_METHODS and not (isinstance(n.func.value, ast.Constant) and n.func.attr in ("split", "count")):
+            out.append(n)
+        elif isinstance(n, ast.Call) and isinstance(n.func, ast.Attribute) and dotted(n.func.value) == "re":
+            out.append(n)
+        elif isinstance(n, ast.Compare) and any(isinstance(o, (ast.In, ast.NotIn)) for o in n.ops) and any(isinstance(x, (ast.JoinedStr, ast.Constant)) and (not isinstance(x, ast.Constant) or isinstance(x.value, str)) or (isinstance(x, ast.BinOp) and isinstance(x.op, ast.Add) and any(isinstance(y, ast.Constant) and isinstance(y.value, str) for y in ast.walk(x))) for x in [n.left, *n.comparators]):
+            out.append(n)
+        elif isinstance(n, ast.Subscript) and isinstance(n.slice, ast.Slice) and any(isinstance(c, ast.Call) and isinstance(c.func, ast.Name) and c.func.id == "len" for b_ in (n.slice.lower, n.slice.upper) if b_ is not None for c in ast.walk(b_)):
+            out.append(n)
+    # the tests that decide what is collected come first: those in conditions
+    out.sort(key=lambda x: 0 if any(isinstance(a, (ast.If, ast.comprehension, ast.IfExp, ast.BoolOp)) for a in ancestors(x)) else 1)
+    return out
+
+
+def _names_instead_of_edges(repo: Repo, fi: FuncInfo, v: FuncInfo) -> Finding | None:
+    """The public sub-module search contains no walk over the graph's edges (no neighbour expansion of nodes taken from a loop, no
+    hierarchy test - also not in a helper) but decides membership by string relations on node names."""
+    fn = v.node
+    if any(isinstance(c, ast.Call) and isinstance(c.func, ast.Attribute) and c.func.attr == HIER for c in ast.walk(fn)):
+        return None
+    # a call of a repo helper the view could not look into may hide the walk
+    for c in ast.walk(fn):
+        if isinstance(c, ast.Call) and isinstance(c.func, ast.Name):
+            try:
+                cs, how = types_of(repo).callees(v, c, byname_fallback=False)
+            except Exception:  # noqa: BLE001
+                cs, how = [], ""
+            if how == "repo" and any(f.fq != fi.fq and f.name != "get_node" and any(isinstance(x, ast.Call) and isinstance(x.func, ast.Attribute) and x.func.attr in (SUCC, PRED, HIER) for x in ast.walk(f.node)) for f in cs):
+                return None
+    tests = _name_tests(fn)
+    if not tests:
+        return None
+    t = tests[0]
+    return Finding(
+        v,
+        t,
+        f"sub modules are read off names instead of hierarchy edges: `{norm(t)}` decides what {fi.name} returns, and no `{HIER}` test on the "
+        f"graph's edges is involved (the source of truth of 'X and all its descendants' is the parent-child relation of the graph; whether a "
+        f"name test cuts at the dotted boundary is C14.R1's question, not this rule's)",
+    )
+
+
+def findings(repo: Repo) -> list[Finding]:
+    models(repo)
+    return repo.__dict__.get("_search_findings", [])
+
+
 def build(repo: Repo, fi: FuncInfo) -> SearchModel | None:
     v = search_view(repo, fi)
     fn = v.node
     exps = _expansions(fn)
-    if not exps:
-        return None
     bound = [(e, _binder(e)) for e in exps]
     in_loop = [(e, b) for e, b in bound if b is not None]
+    if fi.name == SUBMODULES and not in_loop:
+        f = _names_instead_of_edges(repo, fi, v)
+        if f is not None:
+            repo.__dict__.setdefault("_search_findings", []).append(f)
+            return None
+    if not exps:
+        return None
     same = bool(in_loop) and all(bb[1] is in_loop[0][1][1] and e.func.attr == in_loop[0][0].func.attr and norm(e.args[0]) == norm(in_loop[0][0].args[0]) and dotted(e.func.value) == dotted(in_loop[0][0].func.value) for e, bb in in_loop)
     if not same:
         raise AnalysisError(
@@ -1599,6 +1667,7 @@ def models(repo: Repo) -> list[SearchModel]:
         return cache
     out = []
     covered: set[str] = set()
+    repo.__dict__["_search_findings"] = []
     for fi in search_functions(repo):
         m = build(repo, fi)
         if m is not None:
@@ -1611,6 +1680,8 @@ def models(repo: Repo) -> list[SearchModel]:
             raise AnalysisError(f"{f.fq}: expands graph neighbours but is not substitutable into a public search function (generator, recursion or unresolved call): search idiom not modelled")
     roles = sorted((m.role, m.direction) for m in out)
     need = [("explicit", "succ"), ("other", "pred"), ("other", "succ"), ("submodules", "succ")]
+    if any(f.fi.name == SUBMODULES for f in repo.__dict__.get("_search_findings", [])):
+        need.remove(("submodules", "succ"))  # not a walk at all: reported as a violation by run_search
     missing = [r for r in need if r not in roles]
     if missing:
         raise AnalysisError(f"graph searches in {SEARCHES}: found {roles}, missing {missing} (expected the explicit search, the forward and the backward 'other' search and the sub-module search)")
